@@ -280,6 +280,64 @@ def gen_multi2(rng, k: int, vary: bool = False, shapes: bool = False):
     return spec, info
 
 
+# ----------------------------------------------------------------------------- generation: shared component objects
+
+def _resync_shared(spec):
+    """the per-section specs of sections that are given one object are one spec (docgen "share" demands it)"""
+    sh = spec.get("share") or {}
+    for what in ("body", "headers"):
+        idx = sh.get(what)
+        if idx is not None and isinstance(spec.get(what), list):
+            for i, j in enumerate(idx):
+                if j != i:
+                    spec[what][i] = spec[what][j]
+
+
+def gen_multi_shared2(rng, k: int):
+    """the shared-component class: lists of sections in which one RTFBody object (and one header entry) is given for
+    two or more sections (docgen "share") while every section has its own frame.  Even k: the sentinel documents of
+    `c02.gen_multi_shared` (key columns anywhere, per section).  Odd k: a document of `gen_multi2` (every strategy,
+    group_by, decorated per-column / per-cell attributes, typed cells) in which one or two sections are followed —
+    directly or at the end of the list — by a section with the SAME body object and a frame of the same shape whose
+    columns are in another order (attributes bind by position, page_by / subline_by / group_by by name)."""
+    from .props import c02
+
+    if k % 2 == 0:
+        spec, info = c02.gen_multi_shared(rng)
+        mode = "nested" if isinstance(spec["headers"], list) else "default"
+        return spec, dict(info, gen="c02.gen_multi_shared", mode=mode, strategies=["shared"] * len(spec["df"]))
+    spec, info = gen_multi2(rng, 0)
+    while not spec["df"]:
+        spec, info = gen_multi2(rng, 0)
+    nested = isinstance(spec["headers"], list) and bool(spec["headers"]) and isinstance(spec["headers"][0], list)
+    token = list(range(len(spec["df"])))                 # which object a section is given
+    for _ in range(rng.choice([1, 1, 2])):
+        i = rng.randrange(len(spec["df"]))
+        fr = copy.deepcopy(spec["df"][i])
+        order = list(range(len(fr["cols"])))
+        if rng.random() < 0.85:
+            rng.shuffle(order)
+        fr["cols"] = [fr["cols"][j] for j in order]
+        fr["rows"] = [[r[j] for j in order] for r in fr["rows"]]
+        body = spec["body"][i]
+        if "col_rel_width" not in body and rng.random() < 0.7:
+            # one entry per frame column: the document keeps the caller's object (otherwise it stores a copy per section)
+            body["col_rel_width"] = [rng.choice([1, 1, 2, 1.5]) for _ in fr["cols"]]
+        pos = rng.choice([i + 1, len(spec["df"])])
+        spec["df"].insert(pos, fr)
+        spec["body"].insert(pos, body)
+        token.insert(pos, token[i])
+        if nested:
+            spec["headers"].insert(pos, spec["headers"][i])
+        info["strategies"].insert(pos, info["strategies"][i])
+        info["new_page"].insert(pos, info["new_page"][i])
+    first = {}
+    share = [first.setdefault(t, i) for i, t in enumerate(token)]
+    spec["share"] = dict(body=share, headers=list(share) if nested else None)
+    info.update(gen="multi2+shared", nsec=len(spec["df"]), labels=docgen.share_labels(spec))
+    return spec, info
+
+
 # ----------------------------------------------------------------------------- generation: figure-only
 
 def _text_attrs(rng, c, k=1):
@@ -453,6 +511,9 @@ def _worker(args):
     try:
         if fixed is not None:
             spec, info = fixed["spec"], fixed.get("info", {})
+        elif rest and rest[0] == "shared":
+            # the shared-component class (one RTFBody / header entry for several sections): its own random stream
+            spec, info = gen_multi_shared2(common.sub_rng(seed, "encodecorr2", "shared", path, k), k)
         elif rest and rest[0] == "shapes":
             # the data-shape class (`harness/datashapes.py`): its own random stream
             spec, info = GEN[path](common.sub_rng(seed, "encodecorr2", "shapes", path, k), k, shapes=True)
@@ -463,6 +524,7 @@ def _worker(args):
             spec, info = GEN[path](common.sub_rng(seed, "encodecorr2", path, k), k)
         if fixed is None:
             ec.draw_unserialized(seed, spec, info, "encodecorr2", path, k, *map(str, rest))
+            _resync_shared(spec)
         out = dict(spec=spec, info=info, path=path)
         try:
             bspec = {kk: v for kk, v in spec.items() if kk not in ("_post", "_nest")}
@@ -492,12 +554,15 @@ def _worker(args):
             shutil.rmtree(wd, ignore_errors=True)
 
 
-def generate_and_compare(seed: int, n_per_path: int, paths=PATHS, fixed=None, headers: int = 0, shapes: int = 0):
+def generate_and_compare(seed: int, n_per_path: int, paths=PATHS, fixed=None, headers: int = 0, shapes: int = 0,
+                         shared: int = 0):
     """`headers` = number of additional documents of the header-variation class per table path (multi, nested1);
-    `shapes` = number of additional documents of the data-shape class on the multi-section path"""
+    `shapes` = number of additional documents of the data-shape class on the multi-section path;
+    `shared` = number of additional documents of the shared-component class on the multi-section path"""
     jobs = [(seed, p, k, None) for p in paths for k in range(n_per_path)]
     jobs += [(seed, p, k, None, True) for p in paths if p != "figure" for k in range(headers)]
     jobs += [(seed, p, k, None, "shapes") for p in paths if p == "multi" for k in range(shapes)]
+    jobs += [(seed, p, k, None, "shared") for p in paths if p == "multi" for k in range(shared)]
     jobs += [(seed, f["path"], -1, f) for f in (fixed or [])]
     outs = common.pool_map(_worker, jobs, chunksize=8)
     for o in outs:
